@@ -38,7 +38,7 @@ theorem facts_shape :
     Sess.teardownSwitchExpr = true ∧ Sess.unsupportedTransportNoErrorCount = 2 ∧
     Sess.notImplementedNoErrorCount = 1 ∧
     Sess.udpCheckRecordExpr = true ∧ Sess.udpCheckPlayExpr = true ∧ Sess.udpCheckRearmExpr = true ∧
-    Sess.lastPacketSecondsCount = 4 ∧
+    Sess.lastPacketNanosCount = 4 ∧ Sess.startPacketNanosCount = 2 ∧ Sess.lastPacketSecondsLeft = 0 ∧
     Sess.advertisedSub = 5 ∧ Sess.advertisedMin = 1 ∧
     Sess.keepAliveSub = 5 * Timer.sec ∧ Sess.keepAliveMin = Timer.sec ∧
     Sess.statusOK = 200 ∧ Sess.statusBadRequest = 400 ∧ Sess.statusSessionNotFound = 454 ∧
@@ -329,8 +329,8 @@ theorem keepalive_margin_tight :
     ¬ (Timer.clientPeriod (2 * Timer.sec - 1) + Timer.sec ≤ 2 * Timer.sec - 1) := Timer.keepalive_margin_tight
 
 /-- **live_never_expired** (UDP / multicast stream check): a peer that at every check has sent a
-keep-alive request less than IdleTimeout ago (PLAY), or a packet at most (timeout − 1 s) ago (PLAY
-and RECORD), is never timed out; all interleavings, all timeouts, all start times. -/
+keep-alive request less than IdleTimeout ago (PLAY), or a packet less than the timeout ago (PLAY and
+RECORD), is never timed out; all interleavings, all timeouts, all start times. -/
 theorem live_never_expired (cfg : Timer.Cfg) (recording : Bool) (hr : 0 < cfg.read) (hi : 0 < cfg.idle)
     (t0 : Nat) (es : List Timer.Ev) (h : Timer.PeerLive cfg recording t0 t0 es) :
     (Timer.run cfg recording (Timer.start t0) es).expired = false :=
@@ -339,16 +339,17 @@ theorem live_never_expired (cfg : Timer.Cfg) (recording : Bool) (hr : 0 < cfg.re
 example : Timer.PeerLive { idle := 3 * Timer.sec, read := 2 * Timer.sec } false 0 0
     [.tick Timer.sec, .request Timer.sec, .tick (2 * Timer.sec)] := by simp [Timer.PeerLive, Timer.sec]
 
-/-- The one-second margin for packets is necessary (their arrival time is stored in whole seconds):
-with ReadTimeout = 1 s a publisher that sent a packet 100 ms before the check is timed out. -/
-theorem record_margin_needed :
+/-- With packet times kept in nanoseconds (fix c10dc6a) a publisher with ReadTimeout = 1 s that
+sends a packet every 100 ms is live; the same timeline was timed out while the code kept the times
+in whole seconds (packet at 1.9 s stored as 1 s, check at 2.0 s). -/
+theorem record_1s_live :
     (Timer.run { idle := 60 * Timer.sec, read := Timer.sec } true (Timer.start 0)
       [.packet (Timer.sec / 2), .tick Timer.sec, .packet (Timer.sec + 9 * (Timer.sec / 10)),
-       .tick (2 * Timer.sec)]).expired = true := Timer.record_margin_needed
+       .tick (2 * Timer.sec)]).expired = false := Timer.record_1s_live
 
 /-- **silent_closed_within**: after the peer's last transmission (state `s`), with checks at most
 `period` apart, some check no later than `deadline + period` finds the session timed out, where
-`deadline ≤ last transmission + timeout` (`deadline_le`). -/
+`deadline = last transmission + timeout` (`deadline_eq`). -/
 theorem silent_closed_within (cfg : Timer.Cfg) (recording : Bool) (period : Nat) (s : Timer.State)
     (clock : Nat) (es : List Timer.Ev) (hne : es ≠ []) (hsp : Timer.Spaced period clock es)
     (hreach : Timer.deadline cfg recording s ≤ Timer.lastTime clock es)
@@ -356,9 +357,9 @@ theorem silent_closed_within (cfg : Timer.Cfg) (recording : Bool) (period : Nat)
     ∃ t, Timer.expiryTime cfg recording s es = some t ∧ t ≤ Timer.deadline cfg recording s + period :=
   Timer.silent_closed_within cfg recording period s clock es hne hsp hreach hclock
 
-theorem deadline_le (cfg : Timer.Cfg) (recording : Bool) (r p : Nat) :
-    Timer.deadline cfg recording { lastReq := r, lastPkt := p / Timer.sec * Timer.sec } ≤
-      (if recording then p + cfg.read else max r p + cfg.idle) := Timer.deadline_le cfg recording r p
+theorem deadline_eq (cfg : Timer.Cfg) (recording : Bool) (r p : Nat) :
+    Timer.deadline cfg recording { lastReq := r, lastPkt := p } =
+      (if recording then p + cfg.read else max r p + cfg.idle) := Timer.deadline_eq cfg recording r p
 
 example : Timer.Spaced Timer.sec 0 [.tick Timer.sec, .tick (2 * Timer.sec), .tick (3 * Timer.sec)] := by
   simp [Timer.Spaced, Timer.sec]
